@@ -117,3 +117,22 @@ check('C07', 'exploration',
       'KKT and agreement at reported convergence, write-back and fixed parameters. Bootstrap histories with every multiset resample (owned through numpy.random.randint, cross-section and panel) check that the reported likelihood is recomputable afterwards.',
       'Concave logit / normal-regression models with 1-3 free parameters on 3-6 row tables; tolerances are the design values widened only to what the algorithms\' own relative-gradient stopping rule permits; algorithms without bound support compared with the unconstrained optimum only.',
       'bounded exhaustive enumeration of models x tables x algorithms x bounds x starts on the real estimation entry points vs closed-form reference optimum', 'DESIGN.md section 4, C07')
+
+# additions made while strengthening the checks against seeded changes (appended to level_claimed.text)
+EXTRA = {
+ 'C01': ' Alphabets include two fixed parameters met in non-sorted order, availability dictionaries in other orders than the utilities, and numeric literals needing many digits / scientific notation; numbering histories (a formula numbered jointly, one of its sub-formulas evaluated alone through three entry points, the enclosing formula evaluated again) are enumerated over 5 sub-formulas x 7 parents x slots.',
+ 'C02': ' Also: the disaggregated-named form; call histories on BIOGEME objects (arrays returned by an earlier call must not change, a second model built on the same formula object must not disturb the first); logit formulas in which one Variable object serves as availability / choice and appears in a utility.',
+ 'C03': ' Also: all sequences (depth 2, thorough 3) of the 8 partial dictionaries on one expression that keeps its id manager (prepared expression, BIOGEME-owned formula, after create_function); get_beta_values for every ordered subset of names; every parameter-carrying sub-formula evaluated alone before simulate.',
+ 'C04': ' Also: the four accepted spellings of the dictionary keys; panel data (scaled = LL / individuals); all operation histories to depth 4-5 over {new model, new model with 2*cpu+1 threads on 3*T rows, likelihood, simulate, remove rows, estimate with bootstrap, change_init_values to 0 / 0.5} on one Database, the likelihood being compared with the weighted sum over the current table after every observation.',
+ 'C09': ' Also: identifiers that are large and close together, row labels that are neither 0..n-1 nor sorted, and histories [declare panel, evaluate, replace the table directly (drop an individual / append one), evaluate].',
+ 'C10': ' Also: user-defined type names that differ from native names only by case, an integer-valued generator for the alphabetically first variable, generator types registered twice, the BIOGEME path (simulate, calculate_likelihood) for multi-draw formulas, and histories of three formulas with different draw sets / numbers of draws evaluated on one database.',
+ 'C12': ' Also: inconsistent logit specifications (availability keys, missing availability, choice outside the utilities) planted at every position like the other faults; nest overlaps / stray alternatives at every nest position among three nests in both syntaxes; tables that become invalid (NaN from a defined variable) after the Database was declared panel or already used by a model.',
+ 'C15': ' The alphabet contains a point with a finite value but an infinite gradient; derivative flags (Hessian / BHHH requested or not) vary in the events; points far below the best are evaluated after estimate() (also after a bootstrap); histories that rename the model between evaluations are enumerated.',
+ 'C05': ' Nests are built under four naming modes (distinct names, unnamed, one shared name, an object first used in a smaller specification).',
+ 'C08': ' Also: power-of-two rescalings of Hessian / BHHH (all eigenvalues tiny, one or two badly scaled parameters, all huge) crossed with the identification threshold of the results object (default, 0, 1e-9 ... 1e4), which must not influence any figure; compiled tables with every entry given as a results object, as its pickle file or as an unreadable name (missing, corrupt, foreign, empty, directory) in every position, through compile_estimation_results and compile_results_in_directory.',
+ 'C14': ' Also: writer histories (pickle / html / latex / f12 / data dump, depth 3-4) over an alphabet of 12 model names (blanks, dots, ~, non-ASCII, long) in empty / own-files / neighbour-files directories; histories of set_value / dump_file / read_file on one Parameters object against a reference dictionary; pickle round trip and recycling under non-default identification thresholds.',
+ 'C16': ' Also: histories on a single Configuration object (8 ways of obtaining it x every configuration x every listing order, followed by 1-3 assignments of the public selections property), checked for identifier, equality / hash against the whole product, round trip, set membership, iteration and operators.',
+ 'C17': ' Nest structures are additionally explored in every order of writing them down (all permutations of the tuple of nests x all permutations of every member list, sorted and unsorted choice sets).',
+}
+for _pid, _txt in EXTRA.items():
+    CHECKS[_pid]['level_claimed']['text'] += _txt
